@@ -320,7 +320,8 @@ def rule_repeats_and_sheets(ctx):
     ctx.res.minimum("O15.2", 3)
 
     def repeat_cell(ch):
-        repeat = ch.choose("number-columns-repeated", ["0", "-1", "x", "", "1.5"])
+        # "1_0" and non-ASCII digits are numbers for Python's int() but not for ODF (positiveInteger)
+        repeat = ch.choose("number-columns-repeated", ["0", "-1", "x", "", "1.5", "1_0", "\u0661"])
         a = text_atom("A")
         document = build_document([[({}, [({"table:number-columns-repeated": repeat}, [Element("text:p", text=a)])])]])
         rows, outcome = run_ods_rows(model, ch, document, 1)
@@ -328,7 +329,18 @@ def rule_repeats_and_sheets(ctx):
             return ("columns-repeated=%r" % repeat, None, None)
         return ("columns-repeated=%r" % repeat, "broken column repeat count not refused with DataFormatError", outcome)
 
-    decide_kinds(ctx, "O15.2", "ods_rows(broken repeat counts)", "cutplace.rowio.ods_rows", repeat_cell, min_cells=5)
+    decide_kinds(ctx, "O15.2", "ods_rows(broken repeat counts)", "cutplace.rowio.ods_rows", repeat_cell, min_cells=7)
+
+    def blank_count_cell(ch):
+        count = ch.choose("text:c", ["x", "", "1.5", "1_0", "\u0662"])
+        a = text_atom("A")
+        document = build_document([[({}, [({}, [Element("text:p", text=a, children=[Element("text:s", {"text:c": count})])])])]])
+        rows, outcome = run_ods_rows(model, ch, document, 1)
+        if outcome == "raise DataFormatError":
+            return ("text:c=%r" % count, None, None)
+        return ("text:c=%r" % count, "broken blank count (text:c) not refused with DataFormatError", outcome if outcome != "rows" else "read %r" % ([show(v) for v in rows[0]] if rows else rows,))
+
+    decide_kinds(ctx, "O15.2", "ods_rows(broken blank counts)", "cutplace.rowio.ods_rows", blank_count_cell, min_cells=5)
 
     def rows_cell(ch):
         repeat = ch.choose("number-rows-repeated", [None, "1", "2", "3"])
@@ -347,6 +359,17 @@ def rule_repeats_and_sheets(ctx):
 
     decide_kinds(ctx, "O15.2", "ods_rows(row runs)", "cutplace.rowio.ods_rows", rows_cell, min_cells=4)
 
+    def broken_rows_repeated_cell(ch):
+        repeat = ch.choose("number-rows-repeated", ["0", "-1", "x", "", "1_0"])
+        a = text_atom("A")
+        document = build_document([[({"table:number-rows-repeated": repeat}, [({}, [Element("text:p", text=a)])])]])
+        rows, outcome = run_ods_rows(model, ch, document, 1)
+        if outcome == "raise DataFormatError":
+            return ("rows-repeated=%r" % repeat, None, None)
+        return ("rows-repeated=%r" % repeat, "broken row repeat count not refused with DataFormatError", outcome)
+
+    decide_kinds(ctx, "O15.2", "ods_rows(broken row repeat counts)", "cutplace.rowio.ods_rows", broken_rows_repeated_cell, min_cells=5)
+
     def sheet_cell(ch):
         sheet_count = ch.choose("sheets", [1, 2, 3])
         sheet = ch.choose("requested", [1, 2, 3, 4])
@@ -363,6 +386,75 @@ def rule_repeats_and_sheets(ctx):
         return (key, "wrong sheet read", "%s %r" % (outcome, [show(row[0]) for row in rows if row]))
 
     decide_kinds(ctx, "O15.2", "ods_rows(sheet selection)", "cutplace.rowio.ods_rows", sheet_cell, min_cells=12)
+
+
+def rule_row_containers_and_covered_cells(ctx, rule_id="O15.3"):
+    """
+    O15.3: the rows of a sheet are its table:table-row elements in document order wherever the format allows them - directly
+    in the table or inside table:table-header-rows / table:table-rows / table:table-row-group (nested groups too); the cells
+    of a row are its table:table-cell AND table:covered-table-cell elements (the positions under a merged cell) in order.
+    """
+    model = ctx.model
+    ctx.res.minimum(rule_id, 2)
+
+    def row(cells):
+        return Element("table:table-row", children=[Element("table:table-cell", children=[Element("text:p", text=cell)]) for cell in cells])
+
+    def container_cell(ch):
+        container = ch.choose("container", ["table:table-header-rows", "table:table-rows", "table:table-row-group",
+                                            "table:table-row-group in table:table-row-group"])
+        wrapped = ch.choose("wrapped rows", ["first", "middle", "last", "all"])
+        atoms = [text_atom(name) for name in ("A", "B", "C")]
+        rows = [row([atom]) for atom in atoms]
+
+        def wrap_rows(elements):
+            if " in " in container:
+                return Element("table:table-row-group", children=[Element("table:table-row-group", children=elements)])
+            return Element(container, children=elements)
+
+        if wrapped == "all":
+            body = [wrap_rows(rows)]
+        else:
+            index = {"first": 0, "middle": 1, "last": 2}[wrapped]
+            body = rows[:index] + [wrap_rows([rows[index]])] + rows[index + 1:]
+        table = Element("table:table", children=[Element("table:table-column")] + body)
+        document = Element("office:document-content", children=[Element("office:body", children=[Element("office:spreadsheet", children=[table])])])
+        result, outcome = run_ods_rows(model, ch, document, 1)
+        key = "%s around the %s row(s)" % (container, wrapped)
+        if outcome != "rows":
+            return (key, "rows in a row container: " + outcome, outcome)
+        texts = [show(r[0]) if isinstance(r, list) and len(r) == 1 else repr(r) for r in result]
+        if texts != ["<A>", "<B>", "<C>"]:
+            return (key, "rows inside a row container are not read in document order", "read %r" % (texts,))
+        return (key, None, None)
+
+    decide_kinds(ctx, rule_id, "ods_rows(rows inside header-rows / rows / row-group)", "cutplace.rowio.ods_rows", container_cell, min_cells=16)
+
+    def covered_cell(ch):
+        shape = ch.choose("covered cells", ["one", "run of 2", "at the start", "at the end"])
+        a, c = text_atom("A"), text_atom("C")
+        plain = lambda atom: Element("table:table-cell", children=[Element("text:p", text=atom)])  # noqa: E731
+        covered = {"one": [Element("table:covered-table-cell")],
+                   "run of 2": [Element("table:covered-table-cell", {"table:number-columns-repeated": "2"})],
+                   "at the start": [Element("table:covered-table-cell")], "at the end": [Element("table:covered-table-cell")]}[shape]
+        if shape == "at the start":
+            cells, expected = covered + [plain(a), plain(c)], ["", "<A>", "<C>"]
+        elif shape == "at the end":
+            cells, expected = [plain(a), plain(c)] + covered, ["<A>", "<C>", ""]
+        else:
+            cells, expected = [plain(a)] + covered + [plain(c)], ["<A>"] + [""] * (2 if shape == "run of 2" else 1) + ["<C>"]
+        table = Element("table:table", children=[Element("table:table-column"), Element("table:table-row", children=cells)])
+        document = Element("office:document-content", children=[Element("office:body", children=[Element("office:spreadsheet", children=[table])])])
+        result, outcome = run_ods_rows(model, ch, document, 1)
+        key = "covered cells: " + shape
+        if outcome != "rows":
+            return (key, "covered cells: " + outcome, outcome)
+        texts = [show(value) if not (isinstance(value, str) and value == "") else "" for value in (result[0] if result else [])]
+        if len(result) != 1 or texts != expected:
+            return (key, "cells under a merged cell (table:covered-table-cell) do not keep their position", "read %r, logical row %r" % (texts, expected))
+        return (key, None, None)
+
+    decide_kinds(ctx, rule_id, "ods_rows(covered cells keep their position)", "cutplace.rowio.ods_rows", covered_cell, min_cells=4)
 
 
 def rule_empty_rows(ctx, rule_id="O15.2"):
@@ -396,4 +488,4 @@ def rule_empty_rows(ctx, rule_id="O15.2"):
 
 from .common import rule_module_state  # noqa: E402
 
-RULES = [rule_cell_texts, rule_repeats_and_sheets, rule_empty_rows, rule_module_state]
+RULES = [rule_cell_texts, rule_repeats_and_sheets, rule_empty_rows, rule_row_containers_and_covered_cells, rule_module_state]
